@@ -2,3 +2,4 @@
 import MptModel.Basic
 import MptModel.Spec.Deque
 import MptModel.Impl.Ring
+import MptModel.Impl.RingOps
